@@ -80,7 +80,7 @@ Bodies == <<
   <<Put(<<WBq(<<Put(<<SQ("\\")>>)>>)>>)>>,
   <<Sub(<<Exit("5")>>), Put(<<P("?")>>)>>,
   <<Put(<<SQ("a:")>>)>>,
-  <<Put(<<SQ("'")>>), Put(<<DQ(B("\\") \o B("$"))>>)>> >>    \* 45
+  <<Put(<<DQ(L("'"))>>), Put(<<DQ(B("\\") \o B("$"))>>)>> >>    \* 45
 
 NeedsBq(b) == LET t == BodyText(b) IN \E i \in DOMAIN t : t[i] \in BqSpecial(TRUE)
 (* the bodies also written with backquotes: number 1 and those whose text   *)
